@@ -169,6 +169,12 @@ def run(ctx):
     cfgs = CONFIGS if not quick else [CONFIGS[0], CONFIGS[1], CONFIGS[2 + ctx.seed % 2]]
     jobs = [(i, ci) for i in range(len(progs)) for ci in range(len(cfgs))]
     traces = vlib.parallel_map(lambda j: run_one(ctx, "r%d_%d" % j, progs[j[0]], txts[j[0]], cfgs[j[1]][1]), jobs)
+    # a run that did not reach its end line (killed by the timeout on a loaded machine, ...) is run once more before validation
+    died = [k for k, t in enumerate(traces) if t[-1].get("e") != "end"]
+    for k, t2 in zip(died, vlib.parallel_map(lambda k: run_one(ctx, "d%d_%d" % jobs[k], progs[jobs[k][0]], txts[jobs[k][0]],
+                                                               cfgs[jobs[k][1]][1], timeout=300), died, nproc=4)):
+        traces[k] = t2
+    ctx.cov["runs_repeated_after_no_end_line"] = len(died)
     ctx.cov["programs"] = len(progs)
     ctx.cov["configurations"] = [c[0] for c in cfgs]
     ctx.cov["impl_runs"] = len(jobs)
